@@ -1594,6 +1594,39 @@ def dispatch_tables_to_if(func: ast.FunctionDef) -> bool:
     return changed[0]
 
 
+class _Beta(ast.NodeTransformer):
+    """(lambda x, y: E)(a, b) -> E[x := a, y := b] for pure arguments (what
+    inlining a helper that takes a callable leaves behind)."""
+
+    def __init__(self):
+        self.changed = False
+
+    def visit_Call(self, node):
+        self.generic_visit(node)
+        f = node.func
+        if isinstance(f, ast.Lambda) and not node.keywords and not any(
+                isinstance(a, ast.Starred) for a in node.args):
+            a = f.args
+            if a.vararg or a.kwarg or a.kwonlyargs or a.defaults or \
+                    len(a.posonlyargs + a.args) != len(node.args):
+                return node
+            params = [x.arg for x in a.posonlyargs + a.args]
+            if not all(_pure(x) for x in node.args):
+                return node
+            # a parameter that is re-bound inside the body (comprehension
+            # variable of the same name) is left alone
+            bound = {x.id for c in ast.walk(f.body) if isinstance(
+                c, ast.comprehension) for x in ast.walk(c.target)
+                if isinstance(x, ast.Name)}
+            if bound & set(params):
+                return node
+            from .core import _Rename
+            self.changed = True
+            return ast.copy_location(_Rename(dict(zip(
+                params, node.args))).visit(clone(f.body)), node)
+        return node
+
+
 def canonicalise(func: ast.FunctionDef, selfname: str | None = None,
                  slots: set[str] = frozenset(),
                  rebound: set[str] = frozenset(),
@@ -1604,6 +1637,9 @@ def canonicalise(func: ast.FunctionDef, selfname: str | None = None,
     new = clone(func)
     set_parents(new)
     ch = dispatch_tables_to_if(new)
+    b_ = _Beta()
+    new = b_.visit(new)
+    ch |= b_.changed
     ch |= flatten_else_after_exit(new)
     c = _Canon()
     new = c.visit(new)
